@@ -20,6 +20,15 @@ spelling, try/except over the checker's own KeyError, for loops over concrete co
 nested defs / lambdas / functools.partial / bound methods as first-class values, and calls into methods of the
 same class (helpers are evaluated whether or not the engine expanded them).
 
+Classes of the analysed program: `Message(...)` is NOT modelled -- the analysed Message.__init__ is evaluated on a
+fresh attribute bag, which thereby becomes an *instance* (methods such as .copy(), properties and class-level
+defaults of its class are evaluated on it); an object of a class without any constructor (TransportTuning()) is an
+instance made of its class-level defaults; every other constructor call yields an opaque individual that remembers
+class and arguments.  Enums: `Type(x)` / `Type.CON` / `Direction.OUTGOING` follow the members listed in the class
+body (closed enums: symbols, with the integer value deciding truthiness -- CON = 0 is falsy; open-ended integer enums
+such as Code: the integers themselves).  warnings.warn is transparent like a log call, copy.copy / copy.deepcopy
+duplicate attribute bags and containers, setattr / hasattr / getattr work on attribute bags.
+
 Everything outside the vocabulary raises Unknown -> AnalysisError (exit 2).  The evaluator never guesses: a
 value it knows nothing about (result of an opaque call, attribute nobody set) is a *token*; branching on a
 token, or comparing two different tokens, is refused.
@@ -33,6 +42,10 @@ from ..pat import chain
 from ..absdom import Sym, Unknown
 
 NATIVE = (type(None), bool, int, float, str, bytes)
+MESSAGE = "aiocoap.message.Message"
+OPTIONS = "aiocoap.options.Options"
+TYPE = "aiocoap.numbers.types.Type"
+_ENUM_BASES = {"enum.Enum", "enum.IntEnum", "enum.Flag", "enum.IntFlag", "enum.StrEnum"}
 
 
 class Obj:
@@ -131,6 +144,11 @@ class Machine:
         # allow_async: a coroutine is run to completion as if nothing else were scheduled in between (`await x`
         # evaluates x); only for scenarios whose obligations are about the state after completion
         self.allow_async = False
+        # opaque_readers: see call_value / reads_only (only for scenarios whose obligations are about fields of objects)
+        self.opaque_readers = False
+        # instance_stubs: {method name: fn(machine, receiver, args, kwargs, node)} -- methods of instances of program
+        # classes (Message objects) that a scenario models as part of its world instead of evaluating them
+        self.instance_stubs = {}
 
     # -- helpers ----------------------------------------------------------------------------------------------
     def effect(self, *rec):
@@ -151,7 +169,11 @@ class Machine:
         if v is None:
             return False
         if isinstance(v, Sym):
-            raise Unknown("truth value of the enum member %s" % v)
+            # a member of the (closed) IntEnum Type is an integer: CON = 0 is falsy, the others are truthy
+            iv = self.type_member_value(v)
+            if iv is None:
+                raise Unknown("truth value of the enum member %s" % v)
+            return bool(iv)
         if isinstance(v, (bool, int, float)):
             return bool(v)
         if isinstance(v, (str, bytes, tuple)):
@@ -266,6 +288,8 @@ class Machine:
                 return Obj("func", tgt, data={"node": fi.node, "frame": None, "module": fi.module, "defaults": None})
             if tgt == "functools.partial":
                 return Obj("builtin", "functools.partial", data=_bi_partial)
+            if tgt in _EXTERNALS:
+                return Obj("builtin", tgt, data=_EXTERNALS[tgt])
             return Obj("module", tgt)
         mc = self.module_constant(mod, name)
         if mc is not _MISSING:
@@ -338,6 +362,8 @@ class Machine:
             qn = v.tag + "." + attr
             if qn == "functools.partial":
                 return Obj("builtin", qn, data=_bi_partial)
+            if qn in _EXTERNALS:
+                return Obj("builtin", qn, data=_EXTERNALS[qn])
             full = qn
             try:
                 full = self.prog.canonical(qn)
@@ -366,10 +392,35 @@ class Machine:
             if cc is not _MISSING:
                 return cc
         if v.kind == "class":
+            em = self.enum_member(v.tag, attr)
+            if em is not _MISSING:
+                return em
             cc = self.class_constant(v.tag, attr)
             if cc is not _MISSING:
                 return cc
             raise Unknown("attribute %s.%s" % (v.tag, attr))
+        iq = self.instance_class(v)
+        if iq is not None:
+            # an instance of a class of the analysed program (a Message built by the analysed __init__, an object of
+            # a class without a constructor of its own): methods, properties and class-level defaults of its class
+            fi = self.prog.lookup_method(iq, attr)
+            if fi is not None:
+                decos = [chain(d) for d in fi.node.decorator_list]
+                if decos == ["property"]:
+                    return self.call_funcinfo(fi, [v], {}, node)
+                if decos == ["staticmethod"]:
+                    return Obj("func", fi.qn, data={"node": fi.node, "frame": None, "module": fi.module, "defaults": None})
+                if decos == ["classmethod"]:
+                    f = Obj("func", fi.qn, data={"node": fi.node, "frame": None, "module": fi.module, "defaults": None})
+                    return Obj("partial", "partial", data=(f, (Obj("class", iq),), {}))
+                if decos:
+                    raise Unknown("decorated method %s.%s" % (iq, attr))
+                return Obj("bound", "%s.%s" % (v.tag, attr), data=(v, attr))
+            if attr == "__class__":
+                return Obj("class", iq)
+            cc = self.class_constant(iq, attr)
+            if cc is not _MISSING:
+                return cc
         if v.lazy:
             t = Obj("obj", "%s.%s" % (v.tag, attr), token=True, lazy=True)
             v.attrs[attr] = t
@@ -460,7 +511,17 @@ class Machine:
             raise Unknown("call of %r" % (fn,))
         if fn.kind == "func":
             d = fn.data
-            return self.call_def(d["node"], d["module"], d["frame"], d["defaults"], args, kwargs, node)
+            if not self.opaque_readers or d["frame"] is not None:
+                return self.call_def(d["node"], d["module"], d["frame"], d["defaults"], args, kwargs, node)
+            try:
+                return self.call_def(d["node"], d["module"], d["frame"], d["defaults"], args, kwargs, node)
+            except Unknown as u:
+                # a module-level function outside the vocabulary that provably cannot write a field of the objects it
+                # is handed (frame rule): the world in which it returns normally, its result an unknown value
+                if not reads_only(d["node"], args, kwargs):
+                    raise
+                self.effect("opaque", fn.tag, str(u))
+                return self.fresh("%s()" % fn.tag)
         if fn.kind == "bound":
             recv, name = fn.data
             if hasattr(fn, "origin"):
@@ -478,13 +539,103 @@ class Machine:
         raise Unknown("call of %r" % (fn,))
 
     def construct(self, qn, args, kwargs, node):
-        if qn == "aiocoap.message.Message":
-            return self.new_message(args, kwargs, node)
+        if qn == MESSAGE or (qn in self.prog.classes and MESSAGE in self.prog.mro(qn)):
+            return self.new_message(args, kwargs, node, qn)
         if self.is_exception_class(qn):
             return Obj("excinst", qn, data=tuple(args))
+        if self.is_enum(qn):
+            return self.enum_call(qn, args, kwargs, node)
         self.counter += 1
         o = Obj("obj", "%s()#%d" % (qn.split(".")[-1], self.counter), data={"class": qn, "args": tuple(args), "kwargs": dict(kwargs)})
+        if qn in self.prog.classes and not args and not kwargs and self.prog.lookup_method(qn, "__init__") is None and self.prog.lookup_method(qn, "__new__") is None \
+                and all(b in self.prog.classes for b in self.prog.mro(qn)):
+            # no constructor anywhere in its (fully known) ancestry: the instance is its class-level defaults (TransportTuning())
+            o.data["instance"] = True
+        if qn == OPTIONS:
+            # a fresh option container: what an option nobody has set reads as is not modelled (an unknown value)
+            o.lazy = True
         return o
+
+    # -- classes of the analysed program --------------------------------------------------------------------------
+    def instance_class(self, v):
+        if isinstance(v, Obj) and v.kind == "obj" and not v.token and isinstance(v.data, dict) and v.data.get("instance") and v.data.get("class") in self.prog.classes:
+            return v.data["class"]
+        return None
+
+    def is_enum(self, qn):
+        if qn not in self.prog.classes:
+            return False
+        return any(b in _ENUM_BASES for b in self.prog.mro(qn))
+
+    def is_extensible_enum(self, qn):
+        return any(b.split(".")[-1] == "ExtensibleIntEnum" for b in self.prog.mro(qn))
+
+    def enum_members(self, qn):
+        """{member name: integer value or None} of an enum class of the analysed program (own body only: enums
+        with members cannot be subclassed)"""
+        cache = self.__dict__.setdefault("_enum_members", {})
+        if qn not in cache:
+            out = {}
+            ci = self.prog.classes[qn]
+            for st in ci.node.body:
+                if isinstance(st, ast.Assign) and len(st.targets) == 1 and isinstance(st.targets[0], ast.Name) and not st.targets[0].id.startswith("_"):
+                    val = st.value
+                    out[st.targets[0].id] = val.value if isinstance(val, ast.Constant) and isinstance(val.value, int) and not isinstance(val.value, bool) else None
+            cache[qn] = out
+        return cache[qn]
+
+    def member_value(self, qn, name):
+        """how this evaluator writes the member `name` of the enum qn: codes and other open-ended integer enums are
+        their integers, members of closed enums are symbols (the symbols of the message types are shared with the
+        bare names CON, NON, ACK, RST the rule passes in)"""
+        members = self.enum_members(qn)
+        if self.is_extensible_enum(qn):
+            if members[name] is None:
+                raise Unknown("value of %s.%s" % (qn, name))
+            return members[name]
+        if qn == TYPE:
+            c = self.consts.get(name)
+            return c if isinstance(c, Sym) else Sym(name)
+        return Sym("%s.%s" % (qn.split(".")[-1], name))
+
+    def enum_member(self, qn, attr):
+        if not self.is_enum(qn) or attr not in self.enum_members(qn):
+            return _MISSING
+        return self.member_value(qn, attr)
+
+    def type_member_value(self, sym):
+        """integer value of a message type symbol, from numbers/types.py; None for any other symbol"""
+        if TYPE not in self.prog.classes:
+            return None
+        return self.enum_members(TYPE).get(str(sym))
+
+    def enum_call(self, qn, args, kwargs, node):
+        """Enum(value): the member with that value (a member is its own value); ValueError if there is none.  Open-ended
+        integer enums (Code, OptionNumber) accept every integer."""
+        if kwargs or len(args) != 1:
+            raise Unknown("%s%r" % (qn.split(".")[-1], tuple(args)))
+        x = args[0]
+        if isinstance(x, Obj) and x.token:
+            raise Unknown("%s(%r), about which nothing is known," % (qn.split(".")[-1], x))
+        members = self.enum_members(qn)
+        ext = self.is_extensible_enum(qn)
+        if isinstance(x, int) and not isinstance(x, bool):
+            if ext:
+                return x
+            for name, val in members.items():
+                if val is not None and val == x:
+                    return self.member_value(qn, name)
+            if any(v is None for v in members.values()):
+                raise Unknown("%s(%r): members without a literal value" % (qn.split(".")[-1], x))
+            raise Raised("ValueError", node)
+        if ext:
+            raise Unknown("%s(%r)" % (qn.split(".")[-1], x))
+        if isinstance(x, Sym):
+            if any(self.member_value(qn, name) == x for name in members):
+                return x
+            raise Raised("ValueError", node)
+        # None, a string, an object that is not a member: `... is not a valid Type`
+        raise Raised("ValueError", node)
 
     def is_exception_class(self, qn):
         try:
@@ -492,25 +643,20 @@ class Machine:
         except Exception:
             return False
 
-    def new_message(self, args, kwargs, node):
-        if args:
-            raise Unknown("Message() with positional arguments")
+    def new_message(self, args, kwargs, node, qn=None):
+        """Message(...): the constructor of the analysed program is evaluated (which keyword ends up in which field,
+        and for which values, is part of what the clauses decide -- a message ID of 0, the type CON = 0, the code
+        EMPTY = 0 and the empty token are all falsy)"""
+        qn = qn or MESSAGE
+        if qn not in self.prog.classes:
+            raise Unknown("class %s" % qn)
+        init = self.prog.lookup_method(qn, "__init__")
+        if init is None:
+            raise Unknown("%s.__init__" % qn)
         self.counter += 1
-        m = Obj("obj", "Message()#%d" % self.counter, lazy=True,
-                attrs={"mtype": None, "mid": None, "code": None, "remote": None, "request": None, "token": b"", "payload": b""})
-        m.data = {"class": "aiocoap.message.Message"}
-        for k, v in kwargs.items():
-            if k in ("mtype", "_mtype", "mid", "_mid", "token", "_token"):
-                # Message.__init__: the underscore spelling and the deprecated plain spelling set the same field
-                if v is not None or k.lstrip("_") not in ("mtype", "mid"):
-                    m.attrs[k.lstrip("_")] = v
-            elif k in ("code", "payload", "transport_tuning"):
-                m.attrs[k] = v
-            elif k == "uri":
-                raise Unknown("Message(uri=...)")
-            else:
-                opt = self.getattr(m, "opt")
-                opt.attrs[k] = v
+        m = Obj("obj", "Message()#%d" % self.counter, lazy=True)
+        m.data = {"class": qn, "instance": True}
+        self.call_def(init.node, init.module, None, None, [m] + list(args), dict(kwargs), node)
         return m
 
     def call_attr(self, recv, name, args, kwargs, node):
@@ -550,6 +696,21 @@ class Machine:
             if decos and decos != ["staticmethod"]:
                 raise Unknown("decorated method self.%s" % name)
             return self.call_funcinfo(fi, [recv] + list(args), kwargs, node)
+        iq = self.instance_class(recv)
+        if iq is not None:
+            if name in self.instance_stubs:
+                return self.instance_stubs[name](self, recv, list(args), dict(kwargs), node)
+            fi = self.prog.lookup_method(iq, name)
+            if fi is not None:
+                decos = [chain(d) for d in fi.node.decorator_list]
+                if decos == ["staticmethod"]:
+                    return self.call_funcinfo(fi, args, kwargs, node)
+                if decos == ["classmethod"]:
+                    return self.call_funcinfo(fi, [Obj("class", iq)] + list(args), kwargs, node)
+                if decos:
+                    raise Unknown("decorated method %s.%s" % (iq, name))
+                return self.call_funcinfo(fi, [recv] + list(args), kwargs, node)
+            raise Unknown("method .%s() of %r" % (name, recv))
         if recv.kind in ("obj",) and not recv.token:
             self.effect("other", "%s.%s" % (recv.tag, name), tuple(args), tuple(sorted(kwargs.items(), key=lambda kv: kv[0])))
             return self.fresh("%s.%s()" % (recv.tag, name))
@@ -872,8 +1033,21 @@ class Machine:
         self.comprehension(e, fr, lambda f: d.data.__setitem__(self.ev(e.key, f), self.ev(e.value, f)))
         return d
 
+    def is_warn_call(self, e, fr):
+        """warnings.warn(...) under whatever name the module imported it: transparent like a log call"""
+        c = chain(e.func)
+        if c is None:
+            return False
+        f, _ = fr.lookup(c.split(".")[0])
+        if f is not None:
+            return False
+        try:
+            return self.prog.resolve_in_module(fr.module, c) == "warnings.warn"
+        except Exception:
+            return False
+
     def ev_Call(self, e, fr):
-        if is_log_call(e):
+        if is_log_call(e) or self.is_warn_call(e, fr):
             return None
         args = []
         for a in e.args:
@@ -1188,6 +1362,45 @@ class Machine:
             raise AnalysisError("evaluation of the %s: %s is outside the evaluator's vocabulary" % (what, u))
 
 
+def reads_only(fnode, args, kwargs):
+    """True if the function `fnode`, called with these values, cannot store into an attribute of any heap individual
+    it is handed: every parameter bound to one occurs only as the base of a plain attribute *read* that is not itself
+    called (`request.opt...`, never `request.x = ..`, `del request.x`, `request.method()`, `f(request)`,
+    `alias = request`, `return request`, `request.__dict__`), in the function and in everything nested in it."""
+    if isinstance(fnode, (ast.AsyncFunctionDef, ast.Lambda)):
+        return False
+    a = fnode.args
+    if a.vararg is not None or a.kwarg is not None:
+        return False
+    names = [x.arg for x in a.posonlyargs + a.args]
+    bound = dict(zip(names, args))
+    for k, v in kwargs.items():
+        bound[k] = v
+
+    def immutable(v):
+        if isinstance(v, tuple):
+            return all(immutable(x) for x in v)
+        return not isinstance(v, Obj) or v.kind in ("class", "module", "builtin")
+    watched = {x.arg for x in a.posonlyargs + a.args + a.kwonlyargs if x.arg not in bound or not immutable(bound[x.arg])}
+    parent = {}
+    for p in ast.walk(fnode):
+        for c in ast.iter_child_nodes(p):
+            parent[id(c)] = p
+    for n in ast.walk(fnode):
+        if isinstance(n, (ast.Global, ast.Nonlocal, ast.Yield, ast.YieldFrom, ast.Await)):
+            return False
+        if isinstance(n, ast.Name) and n.id in watched:
+            if isinstance(n.ctx, ast.Store):
+                continue  # rebinding the local name does nothing to the object
+            p = parent.get(id(n))
+            if not (isinstance(p, ast.Attribute) and p.value is n and isinstance(p.ctx, ast.Load)) or p.attr.startswith("__"):
+                return False
+            pp = parent.get(id(p))
+            if isinstance(pp, ast.Call) and pp.func is p:
+                return False
+    return True
+
+
 # -- builtins ---------------------------------------------------------------------------------------------------
 
 def _bi_partial(m, args, kwargs, node):
@@ -1311,7 +1524,68 @@ def _bi_minmax(which):
     return f
 
 
+def _bi_setattr(m, args, kwargs, node):
+    if kwargs or len(args) != 3 or not isinstance(args[1], str):
+        raise Unknown("setattr%r" % (tuple(args),))
+    m.setattr(args[0], args[1], args[2])
+    return None
+
+
+def _bi_hasattr(m, args, kwargs, node):
+    if kwargs or len(args) != 2 or not isinstance(args[1], str) or not isinstance(args[0], Obj) or args[0].token:
+        raise Unknown("hasattr%r" % (tuple(args),))
+    o, name = args
+    if name in o.attrs or name in o.methods:
+        return True
+    if o.lazy:
+        raise Unknown("hasattr(%r, %r): nothing is known about that attribute" % (o, name))
+    iq = m.instance_class(o)
+    if iq is not None:
+        return m.prog.lookup_method(iq, name) is not None or m.prog.class_attr(iq, name)[0] is not None
+    if o.kind == "obj" and not isinstance(o.data, dict):
+        return False
+    raise Unknown("hasattr(%r, %r)" % (o, name))
+
+
+def _deepcopy(m, v, memo, deep=True):
+    """copy.deepcopy / copy.copy of a value of this evaluator: containers and attribute bags are duplicated,
+    immutable values, callables, classes and values about which nothing is known are shared"""
+    if isinstance(v, tuple):
+        return tuple(_deepcopy(m, x, memo, deep) for x in v) if deep else v
+    if not isinstance(v, Obj) or v.token or v.kind not in ("obj", "dict", "list"):
+        return v
+    if id(v) in memo:
+        return memo[id(v)]
+    m.counter += 1
+    new = Obj(v.kind, "copy#%d(%s)" % (m.counter, v.tag), lazy=v.lazy, methods=v.methods)
+    memo[id(v)] = new
+    new.data = dict(v.data) if isinstance(v.data, dict) and v.kind == "obj" else v.data
+    sub = (lambda x: _deepcopy(m, x, memo, True)) if deep else (lambda x: x)
+    if v.kind == "dict":
+        new.data = {sub(k): sub(x) for k, x in v.data.items()}
+    elif v.kind == "list":
+        new.data = [sub(x) for x in v.data]
+    new.attrs = {k: sub(x) for k, x in v.attrs.items()}
+    return new
+
+
+def _ext_deepcopy(m, args, kwargs, node):
+    if kwargs or len(args) != 1:
+        raise Unknown("copy.deepcopy%r" % (tuple(args),))
+    return _deepcopy(m, args[0], {}, True)
+
+
+def _ext_copy(m, args, kwargs, node):
+    if kwargs or len(args) != 1:
+        raise Unknown("copy.copy%r" % (tuple(args),))
+    return _deepcopy(m, args[0], {}, False)
+
+
+_EXTERNALS = {"warnings.warn": lambda m, args, kwargs, node: None, "copy.deepcopy": _ext_deepcopy, "copy.copy": _ext_copy}
+
+
 _BUILTINS = {
+    "setattr": _bi_setattr, "hasattr": _bi_hasattr,
     "set": _bi_set, "frozenset": _bi_set, "range": _bi_range, "getattr": _bi_getattr, "str": _bi_str, "repr": _bi_str, "int": _bi_int,
     "min": _bi_minmax(min), "max": _bi_minmax(max),
     "len": _bi_len, "bool": _bi_bool, "any": _bi_any, "all": _bi_all, "tuple": _bi_tuple, "list": _bi_list, "dict": _bi_dict,
